@@ -28,8 +28,14 @@ type enumOutcome struct {
 	roles  map[string]int64  // operand role -> abstract value of the recursive answer
 	result int64             // returned enum value
 	unknownResult bool       // lenient mode: the returned value is not a constant on this path
+	results  []enumRes       // all results of the return, in order
 	isBool bool              // result is a boolean (0/1) rather than an enum value
 	pos    token.Pos
+}
+
+type enumRes struct {
+	val   int64
+	known bool
 }
 
 type enumCfg struct {
@@ -39,6 +45,9 @@ type enumCfg struct {
 	opConsts   map[int64]string                       // operator code -> name
 	opField    string                                 // name of the operator field on the node ("Op")
 	opParamPath []string                              // alternatively: the compared enum is <param0>.<path...> (e.g. p.lexer.Token)
+	presetKinds  map[string]string                    // dynamic type of interface-typed parameters, by parameter name: every type test on them is decided
+	presetParams map[string]int64                     // value of integer/enum parameters, by parameter name
+	knownCalls   map[string]func(kindOfArg func(ssa.Value) (string, bool), c *ssa.Call) (int64, bool) // pure predicates that can be answered from preset kinds
 	lenient    bool                                   // unknown branch conditions fork (labelled "?"), unknown results are recorded with unknownResult
 	maxPaths   int
 }
@@ -154,7 +163,33 @@ func (e *enumEvaluator) eval(s *enumState, v ssa.Value) (int64, bool) {
 	if s.known[v] {
 		return s.vals[v], true
 	}
+	if prm, ok := v.(*ssa.Parameter); ok && e.cfg.presetParams != nil {
+		if val, ok := e.cfg.presetParams[prm.Name()]; ok {
+			return val, true
+		}
+	}
 	return 0, false
+}
+
+// presetKindOf: the preset dynamic type of the parameter an interface value is read from
+func (e *enumEvaluator) presetKindOf(v ssa.Value) (string, bool) {
+	if e.cfg.presetKinds == nil {
+		return "", false
+	}
+	root, path := purePath(v)
+	if len(path) != 0 {
+		return "", false
+	}
+	if al, ok := root.(*ssa.Alloc); ok {
+		if sv := c04SingleStore(al); sv != nil {
+			root = sv
+		}
+	}
+	if prm, ok := root.(*ssa.Parameter); ok {
+		k, ok := e.cfg.presetKinds[prm.Name()]
+		return k, ok
+	}
+	return "", false
 }
 
 func (e *enumEvaluator) problem(pos token.Pos, format string, a ...interface{}) {
@@ -192,6 +227,12 @@ func (e *enumEvaluator) runFrom(b, pred *ssa.BasicBlock, idx int, s *enumState, 
 			e.step(s, in)
 		case *ssa.Call:
 			name := FuncNameOf(x)
+			if kc, ok := e.cfg.knownCalls[name]; ok {
+				if val, known := kc(e.presetKindOf, x); known {
+					s.vals[x], s.known[x] = val, true
+				}
+				continue
+			}
 			if e.cfg.recursive[name] || e.cfg.inlined[name] != nil {
 				e.forkCall(b, pred, i, x, s, depth)
 				return
@@ -279,7 +320,7 @@ func (e *enumEvaluator) forkCall(b, pred *ssa.BasicBlock, idx int, x *ssa.Call, 
 
 func (e *enumEvaluator) finish(x *ssa.Return, s *enumState) {
 	e.paths++
-	if len(x.Results) != 1 {
+	if len(x.Results) == 0 || (len(x.Results) != 1 && !e.cfg.lenient) {
 		e.problem(x.Pos(), "unexpected result arity")
 		return
 	}
@@ -294,6 +335,10 @@ func (e *enumEvaluator) finish(x *ssa.Return, s *enumState) {
 	}
 	for k, v := range s.roles {
 		o.roles[k] = v
+	}
+	for _, rv := range x.Results {
+		v2, k2 := e.eval(s, rv)
+		o.results = append(o.results, enumRes{v2, k2})
 	}
 	e.out = append(e.out, o)
 }
@@ -310,6 +355,14 @@ func (e *enumEvaluator) branch(b *ssa.BasicBlock, x *ssa.If, s *enumState, depth
 	// type test?
 	if ex, ok := x.Cond.(*ssa.Extract); ok && ex.Index == 1 {
 		if ta, ok := ex.Tuple.(*ssa.TypeAssert); ok {
+			if k, ok := e.presetKindOf(ta.X); ok {
+				si := 1
+				if k == shortTypeName(ta.AssertedType) {
+					si = 0
+				}
+				e.run(b.Succs[si], b, s, depth+1)
+				return
+			}
 			t := s.clone()
 			f := s.clone()
 			if s.kind == "" {
